@@ -8,6 +8,7 @@ ids=(seeded/${PREFIX}*/)
 for w in $(seq 1 $N); do
   (
     WT=/tmp/wt_regress_$w
+    sleep $((w * 3))      # (git worktree add is not safe to run several times at once)
     git -C /repo worktree remove --force $WT >/dev/null 2>&1
     git -C /repo worktree add -q --detach $WT HEAD || exit 2
     k=0
